@@ -371,9 +371,21 @@ def run(R):
             for nm in names:
                 if nm in want_map:
                     seen_classes.add(nm)
-                    raised = {P.exc_name(w.f.mod, x.ast.exc) for x in exits if x.kind == 'raise' and x.ast.exc is not None}
+                    # exits of the handler when the exception caught is `nm`: `isinstance(<bound name>, T)` tests inside are decided by it
+                    hexits = exits
+                    if h.ast.name:
+                        def isinst(e, nm=nm, hname=h.ast.name):
+                            if isinstance(e, ast.Call) and isinstance(e.func, ast.Name) and e.func.id == 'isinstance' and len(e.args) == 2 \
+                                    and isinstance(e.args[0], ast.Name) and e.args[0].id == hname:
+                                ts = e.args[1].elts if isinstance(e.args[1], ast.Tuple) else [e.args[1]]
+                                return any(P.caught_by(nm, [P.exc_name(w.f.mod, t_)]) for t_ in ts)
+                            return None
+                        from .common import explore
+                        er = explore(w, isinst, start=h)
+                        hexits = [x for x in exits if x.id in er]
+                    raised = {P.exc_name(w.f.mod, x.ast.exc) for x in hexits if x.kind == 'raise' and x.ast.exc is not None}
                     inst2 = f'{wq} :: {nm} -> {want_map[nm].rsplit(".", 1)[1]}'
-                    if raised == {want_map[nm]} and not any(x.kind == 'return' for x in exits):
+                    if raised == {want_map[nm]} and not any(x.kind == 'return' for x in hexits):
                         R.ok('C03.MAP.1', inst2, site(w, h.ast))
                     else:
                         R.fail('C03.MAP.1', inst2, wq, h.ast, f'{nm} ends the waiter with {sorted(raised) or "a normal return"} '
